@@ -165,7 +165,9 @@ int yywrap(yyscan_t s)
 {
     int k = next_file();
     if (k >= 0 && g_mode == 'b') { int n; char *p = slurp(g_argv[k], &n); struct yyguts_t *yyg = (struct yyguts_t *) s;
-                                   YY_BUFFER_STATE old = YY_CURRENT_BUFFER; yy_scan_bytes(p, n, s); yy_delete_buffer(old, s); free(p); return 0; }
+                                   YY_BUFFER_STATE old = YY_CURRENT_BUFFER; int ln = yyget_lineno(s);
+                                   /* a reentrant scanner counts lines per buffer: the count is carried over to the new one */
+                                   yy_scan_bytes(p, n, s); yyset_lineno(ln, s); yy_delete_buffer(old, s); free(p); return 0; }
     if (k >= 0) { FILE *f = fopen(g_argv[k], "rb"); if (!f) exit(2); yyset_in(f, s); return 0; }
     return 1;
 }
